@@ -22,7 +22,7 @@ def sessions(ctx):
                 yield copy.deepcopy(tr), dict(rd), lab
         for k in range(ctx.pick(100, 1000)):
             g = gen.SessionGen(ctx.seed * 982451653 + k, nconn=(1, 2), nmsg=(12, 40), junk=0.05, cmds=0.2, core=True,
-                               dy=(k % 2 == 0), with_init_filter=0.5)
+                               dy=(k % 2 == 0), with_init_filter=0.5, back=(0.08 if k % 3 == 0 else 0.0))
             s = g.session()
             for rd in ctx.rnd.sample(RENDERS, 2):
                 rd = dict(rd)
